@@ -85,15 +85,28 @@ class Origins:
             op = t[1].replace("WithOverflow", "")
             a = self.classify(body, t[2], depth, seen)
             b = self.classify(body, t[3], depth, seen)
-            if op in ("BitAnd",):
+            if op == "BitAnd":
                 for x in (a, b):
                     if x[0] == "const" and isinstance(x[1], int):
                         return ("bounded", max(1, x[1].bit_length()), "masked with %#x" % x[1])
-                return self.join([a]) if a[0] != "unbounded" else b
+                return a if rank(a) <= rank(b) else b
             if op in ("Shr", "Div", "Rem", "Sub"):
-                return a if a[0] != "const" else b if op == "Sub" else a
-            if op in ("Add", "Mul", "Shl", "BitOr", "BitXor"):
-                return self.join([a, b])
+                return a
+            ba, bb = bits_of(a), bits_of(b)
+            if ba is not None and bb is not None:
+                if op == "Mul":
+                    nb = ba + bb
+                elif op == "Shl":
+                    nb = ba + (b[1] if b[0] == "const" and isinstance(b[1], int) else (1 << min(bb, 6)))
+                elif op == "Add":
+                    nb = max(ba, bb) + 1
+                else:
+                    nb = max(ba, bb)
+                if a[0] == "const" and b[0] == "const":
+                    return ("const", None)
+                if nb <= MAX_BITS:
+                    return ("bounded", nb, "arithmetic on type-bounded values (%d bits)" % nb)
+                return ("unbounded", "arithmetic on type-bounded values can reach %d bits" % nb)
             return self.join([a, b])
         if k == "un":
             return self.classify(body, t[2], depth, seen)
@@ -226,6 +239,17 @@ class Origins:
             ty = body.local_ty(b[1])
             return re.sub(r"^&(mut )?", "", ty)
         return None
+
+
+MAX_BITS = 24
+
+
+def bits_of(c):
+    if c[0] == "const":
+        return max(1, c[1].bit_length()) if isinstance(c[1], int) and c[1] >= 0 else 1
+    if c[0] == "bounded":
+        return c[1]
+    return None
 
 
 def strip_generics(ty):
